@@ -1,5 +1,5 @@
 CONSTANTS
-  Impl = "asis"
+  Impl = "current"
   Space = "header"
 INIT Init
 NEXT Next
